@@ -58,6 +58,14 @@ CHECKS = {
         real=REAL_COMMON, stub=['byte transport and segmentation (simio)', 'allocator (simalloc)', 'pthread primitives (simsched, MT runs)'],
         assumptions=['flush completion = compressStream2(flush)/flushStream returned 0', 'liveness stated as progress per call and bounded total calls, never wall-clock'],
     ),
+    'C09': dict(
+        level='fault_enumeration',
+        batches=[dict(scenario='c09trunc', flavour='P', quick=3200, thorough=120000), dict(scenario='c09trunc', flavour='A', quick=640, thorough=16000)],
+        rule='per run one generated wire (10 frame shapes: empty / raw / RLE / compressed / multi-block / magicless / dictionary+dictID / multi-frame / skippable / flushed stream; checksum and content-size flags random): EVERY cut point 0<k<|wire| for wires up to 6000 bytes (larger: all points within 40 bytes of either end plus a stride) through one-shot, streaming (plan segmentation), buffer-less and the frame-size inspector; all 32 stored-checksum bit flips per checksummed frame; up to 800 sampled content bit flips; 5 trailing-garbage lengths; 4 pledged-size lies; distinct = distinct plan signature; non-trivial = at least one cut point evaluated (probes c09.cut_points / c09.bit_flips give the enumerated fault counts)',
+        real=REAL_COMMON, stub=['the wire between producer and decoder (cut / flipped / extended by the simulator)', 'frame boundaries, declared sizes and checksums recomputed by the independent frame walker and own XXH64'],
+        assumptions=['cut points exactly between frames are valid shorter streams and are excluded', 'content bit flips are sampled (seeded), checksum bit flips and cut points of small wires are exhaustive'],
+        coverage_extra=lambda t: dict(cut_points_enumerated=t.probes.get('c09.cut_points', 0), wires_cut_exhaustively=t.probes.get('c09.frames_cut_exhaustively', 0), bit_flips=t.probes.get('c09.bit_flips', 0)),
+    ),
 }
 
 def default_root(tier):
